@@ -47,6 +47,7 @@ fn main() {
 					Some("ser") => serdev::replay_ser(&mut rep, &rec),
 					Some("canon") => canonv::replay_canon(&mut rep, &rec),
 					Some("conv") => navv::replay_conv(&mut rep, &rec),
+					Some("wide") => printv::replay_wide(&mut rep, &rec),
 					Some("print") => printv::replay_print(&mut rep, &rec),
 					Some("uneq") => unordv::replay_uneq(&mut rep, &rec),
 					Some("kind_set") => kindv::replay_set(&mut rep, &rec),
